@@ -18,6 +18,14 @@ FILL_HOSTILE = ["naïve café ☃", "日本語のテキスト", "é combining",
 SEPS = {"lf": "\n", "crlf": "\r\n", "cr": "\r"}
 
 
+def _usable(part, vp):
+    """a partial pattern is usable if its part is in the version pattern - or, for the year, if the version pattern has no calendar part at all
+    (Copyright 2018-YYYY in a SemVer project: the year then comes from today's date)"""
+    if part in vp:
+        return True
+    return part == "YYYY" and "MAJOR" in vp and not any(c in vp.replace("PYTAG", "").replace("MAJOR", "").replace("MINOR", "").replace("PATCH", "") for c in ("Y", "0M", "MM", "0D", "DD", "JJ", "00J", "Q", "WW", "0W", "UU", "0U", "VV", "0V", "GG"))
+
+
 def render_old(vp, raw, vinfo):
     from bumpver import v2version, v2patterns
     return v2version.format_version(vinfo, v2patterns.normalize_pattern(vp, raw))
@@ -97,12 +105,12 @@ def generate(rng, hostile=False, regimes=("lf", "crlf", "cr", "mixed"), max_file
         names = [{"setup.py": ".version", "docs/conf.py": ".github/workflows/ci.yml", "README.md": ".release-notes.md"}.get(x, x) for x in names]
     for fi, name in enumerate(names):
         raws = rng.sample(RAW_FULL, rng.randrange(1, max_pats + 1))
-        partial_cands = [c for part, cands in RAW_PARTIAL.items() if part in lay.vp for c in cands]
+        partial_cands = [c for part, cands in RAW_PARTIAL.items() if _usable(part, lay.vp) for c in cands]
         if partial_cands and rng.random() < only_partial:
             raws = rng.sample(partial_cands, rng.randrange(1, min(2, len(partial_cands)) + 1))
         file_vinfo = stale_vinfo if rng.random() < stale else vinfo
         for part, cands in RAW_PARTIAL.items():
-            if part in lay.vp and rng.random() < partial and len(raws) < max_pats:
+            if _usable(part, lay.vp) and rng.random() < partial and len(raws) < max_pats:
                 raws.append(rng.choice(cands))
         # anchored patterns need a line of their own; keep at most one
         anchored = [r for r in raws if r.startswith("^")]
